@@ -10,7 +10,9 @@ produced here by the functions the theorems quantify over: `Spec.rotl`, `recase`
   lin  name site skip oh dir seq            : linear part
   case name site skip oh dir circ seq mask  : seq vs recase mask seq
   hist name site skip oh seq                : the SAME stored string through a fixed history of calls
-                                              (circular/linear, directional or not) in one process
+                                              (circular/linear, directional or not) in one process; correspondence
+                                              and judgement are decided PER STEP: only the steps whose call lies
+                                              inside the quantifier count, the others are drift (`step-drift`)
 `name` = a built-in enzyme (geometry taken from the REBASE-pinned spec table, the request then
 also goes through CutWithEnzymeByName) or "" for a custom enzyme given by site/skip/oh
 (any other name: custom enzyme + a ByName call that must be refused).
@@ -125,8 +127,7 @@ def judge (f out : List String) : Verdict :=
   | none => { corr := false, judge := none, cls := "bad-case" }
   | some c =>
     let m := modelReply c
-    let corr := sameReply out m
-    let orderDiffers := corr && out != m
+    let corrAll := sameReply out m
     let s0 := c.seqs.headD []
     let u0 := s0.map Char.toUpper
     let isBuiltin := (builtin.lookup c.name).isSome
@@ -140,9 +141,20 @@ def judge (f out : List String) : Verdict :=
                   else (linSites w n c.g.site).length + (linSites w n (rcSite c.g.site)).length
     let expected := if c.circ then digestW c.g w n else digestLinW c.g w n
     let expectedLin := digestLinW c.g w n
+    -- a step of a history is inside the quantifier when it is directional and its topology's layout is;
+    -- the other steps (non-directional, cuts too close, coincident cuts …) are correspondence drift only
+    let stepDom : Bool × Bool → Bool := fun (circ, dir) =>
+      dir && (if circ then inQuantifierW c.g w n else inQuantifierLinW c.g w n)
     let inDom := c.dir && (c.name == "" || isBuiltin) &&
-      (if c.kind == "hist" then inQuantifierW c.g w n && inQuantifierLinW c.g w n
+      (if c.kind == "hist" then history.any stepDom
        else if c.circ then inQuantifierW c.g w n else inQuantifierLinW c.g w n)
+    let modelPairs := match m with | "ok" :: r => pairsOf r | _ => []
+    let corr :=
+      if c.kind == "hist" then
+        shapeOk && ((pairs.zip modelPairs).zip history).all fun (((d, _), (md, _)), h) => !stepDom h || sameField d md
+      else corrAll
+    let orderDiffers := corr && out != m && corrAll
+    let stepDrift := corr && !corrAll
     -- coincident forward/reverse cuts (blunt cutters): outside the quantifier, correspondence only
     let coincident := if c.circ then !noCoincident c.g w n else !noCoincidentLin c.g w n
     let decoded := pairs.map fun (d, _) => decFragments d
@@ -164,7 +176,7 @@ def judge (f out : List String) : Verdict :=
          -- every directional call of the history returns the spec's multiset for its topology
          decoded.length == history.length &&
          (decoded.zip history).all fun (d, (circ, dir)) =>
-           !dir || (match d with
+           !stepDom (circ, dir) || (match d with
              | some a => a.isPerm (if circ then expected else expectedLin)
              | none => false)
        | _ =>
@@ -176,7 +188,7 @@ def judge (f out : List String) : Verdict :=
     let cls := (if nsites == 0 then "triv:" else "") ++ c.kind ++ (if c.kind == "case" then (if c.circ then "C" else "L") else "")
                 ++ "/" ++ enz ++ (if c.dir then "" else "/nondir")
                 ++ "/s" ++ toString nsites ++ "f" ++ toString expected.length
-                ++ (if c.g.oh == 0 then "/blunt" else "") ++ (if coincident then "/coincident" else "") ++ (if orderDiffers then " order-differs" else "")
+                ++ (if c.g.oh == 0 then "/blunt" else "") ++ (if coincident then "/coincident" else "") ++ (if orderDiffers then " order-differs" else "") ++ (if stepDrift then " step-drift" else "")
     { corr := corr, judge := if inDom then some j else none, cls := cls,
       detail := if corr && (j || !inDom) then "" else
         "model: " ++ lineOf m ++ " | spec: " ++ encFragments expected }
